@@ -251,6 +251,8 @@ func (c *cur) rvalRaw() any {
 		return jsonStr(c.str())
 	case "rjn":
 		return json.Number(c.str())
+	case "rrm":
+		return json.RawMessage(c.str())
 	case "rf":
 		return func() {}
 	case "rst":
